@@ -298,7 +298,7 @@ pub fn gen(r: &mut Rng) -> Value {
         let lp = if i > 0 && r.chance(1, 3) { 1 + r.below(3) } else { 0 };
         json!({"out": if r.chance(3, 4) { json!(format!("o{}", r.below(2))) } else { Value::Null }, "args": args, "loop": lp})
     }).collect();
-    json!({ "body": body, "calls": calls, "scoped": r.chance(1, 3), "preset": r.chance(1, 2) })
+    json!({ "body": body, "calls": calls, "scoped": r.chance(1, 3), "preset": r.chance(1, 2), "deco": if r.chance(1, 2) { r.next() % 1000000 + 1 } else { 0 } })
 }
 
 fn ret_inside_for(block: &Vec<Value>, in_for: bool) -> bool {
@@ -387,7 +387,7 @@ fn run_inner(input: &Value) -> Option<Value> {
             lines.push(format!("release ${{hd{}}}", ci));
         }
     }
-    let script = lines.join("\n");
+    let script = crate::deco::decorate(&lines, input["deco"].as_u64().unwrap_or(0)).join("\n");
     // a call made from inside a loop of the caller is that call, once per iteration
     let calls: Vec<Value> = calls.iter().flat_map(|c| std::iter::repeat(c.clone()).take(std::cmp::max(1, c["loop"].as_u64().unwrap_or(0)) as usize)).collect();
     // model
